@@ -78,10 +78,7 @@ func C06(c *Ctx) {
 		for _, s := range saves {
 			se := ErrResult(s)
 			// from the save's nil edge every path to a non-error exit passes the fire
-			q := PathQuery{From: s.(ssa.Instruction), Cut: func(i ssa.Instruction) bool { return i == fire.Call.(ssa.Instruction) }, Goal: func(i ssa.Instruction) bool {
-				ret, ok := i.(*ssa.Return)
-				return ok && !c.isErrorExit(ret)
-			}}
+			q := PathQuery{From: s.(ssa.Instruction), Cut: func(i ssa.Instruction) bool { return i == fire.Call.(ssa.Instruction) }, GoalP: c.nonErrorReturn}
 			_ = se
 			if p := q.Find(); p != nil {
 				r.Bad("C06.revoke-event", name, "FireAfter(EventRecoverEnd)", posf(c, fire.Call), "a path from the successful Save reaches a non-error exit without firing After(EventRecoverEnd)", c.P.DescribePath(p)...)
@@ -110,10 +107,7 @@ func C06(c *Ctx) {
 	// every successful return has changed and saved the password: no shortcut
 	// (e.g. "same password as before") may skip the save and the revocation
 	{
-		q := PathQuery{StartBlock: upd.Blocks[0], Cut: IsCallTo(fnSave), Goal: func(i ssa.Instruction) bool {
-			ret, ok := i.(*ssa.Return)
-			return ok && !c.isErrorExit(ret)
-		}}
+		q := PathQuery{StartBlock: upd.Blocks[0], Cut: IsCallTo(fnSave), GoalP: c.nonErrorReturn}
 		if p := q.Find(); p != nil {
 			r.Bad("C06.update-always", un, "Save on every success path", c.P.Pos(upd.Pos()), "UpdatePassword can report success without saving a new password hash (and therefore without revoking the remember tokens): a caller who rotates a password, even to the same value, is told that outstanding tokens are gone when they are not", c.P.DescribePath(p)...)
 		} else {
@@ -133,10 +127,7 @@ func C06(c *Ctx) {
 			ta, isTA := e.Tuple.(*ssa.TypeAssert)
 			return isTA && ta.CommaOk && strings.HasSuffix(ta.AssertedType.String(), "RememberingServerStorer")
 		}
-		q := PathQuery{From: s.(ssa.Instruction), Cut: IsCallTo(fnDelRemember), Goal: func(i ssa.Instruction) bool {
-			ret, ok := i.(*ssa.Return)
-			return ok && !c.isErrorExit(ret)
-		}, Prune: func(a, b *ssa.BasicBlock) bool {
+		q := PathQuery{From: s.(ssa.Instruction), Cut: IsCallTo(fnDelRemember), GoalP: c.nonErrorReturn, Prune: func(a, b *ssa.BasicBlock) bool {
 			// the edge on which the storer turned out not to support remember tokens is allowed
 			f, ok := EdgeFact(a, b)
 			return ok && failedAssert(f)
@@ -290,10 +281,7 @@ func (c *Ctx) rememberRevokeWire(ruleWire, ruleRevoke string) {
 				}
 				r.Check(okE, ruleRevoke, hn, "DelRememberTokens.err", posf(c, d), "error returned to the recover handler", "error of DelRememberTokens is not returned")
 				// unconditional: every non-error path of the handler passes it
-				q := PathQuery{StartBlock: h.Blocks[0], Cut: func(i ssa.Instruction) bool { return i == d.(ssa.Instruction) }, Goal: func(i ssa.Instruction) bool {
-					ret, ok := i.(*ssa.Return)
-					return ok && !c.isErrorExit(ret)
-				}}
+				q := PathQuery{StartBlock: h.Blocks[0], Cut: func(i ssa.Instruction) bool { return i == d.(ssa.Instruction) }, GoalP: c.nonErrorReturn}
 				if p := q.Find(); p != nil {
 					r.Bad(ruleRevoke, hn, "DelRememberTokens|all paths", posf(c, d), "handler can return without error and without deleting the tokens", c.P.DescribePath(p)...)
 				} else {
